@@ -53,8 +53,8 @@ type drv struct {
 	c       *wire.Client
 	rnd     *rand.Rand
 	crashes int
-	base    map[string]bool
-	also    map[string]int
+	dd      *mimegen.Dedup
+	alsoPc  map[string]int
 	nMsg    int
 	refused map[string]int
 	perKind map[string]int64
@@ -63,25 +63,7 @@ type drv struct {
 	noPartial map[string]bool
 }
 
-func nonDefault(s mimegen.Shape) string {
-	var out []string
-	if s.Hdr != "plain" {
-		out = append(out, "hdr="+s.Hdr)
-	}
-	if s.Le != "crlf" {
-		out = append(out, "le="+s.Le)
-	}
-	if s.Bnd != "normal" {
-		out = append(out, "bnd="+s.Bnd)
-	}
-	if s.Dmg != "none" {
-		out = append(out, "dmg="+s.Dmg)
-	}
-	if s.Size != "small" {
-		out = append(out, "size="+s.Size)
-	}
-	return strings.Join(out, ",")
-}
+func nonDefault(s mimegen.Shape) string { return strings.Join(s.Dims(), ",") }
 
 func quoteTrim(b []byte, n int) string {
 	if len(b) > n {
@@ -93,15 +75,9 @@ func quoteTrim(b []byte, n int) string {
 // violate: groups with the default shape run first; a signature seen there is not reported again under
 // other shapes; a signature that appears only under a non-default shape carries the shape in front.
 func (d *drv) violate(g *group, c *tcase, key, detail string, msg []byte) {
-	nd := nonDefault(g.layout.Shape)
-	switch {
-	case nd == "":
-		d.base[key] = true
-	case d.base[key]:
-		d.also[key]++
+	key, report := d.dd.Key(g.layout.Shape.Dims(), key)
+	if !report {
 		return
-	default:
-		key = nd + ":" + key
 	}
 	rp := map[string]interface{}{"layout": g.layout}
 	if c != nil {
@@ -308,7 +284,7 @@ func (d *drv) runGroup(g *group, tag string) bool {
 	if fres.Closed || fres.TimedOut {
 		return d.alive(g, nil, "FETCH 1 (RFC822.SIZE BODY.PEEK[] RFC822 ...)", fres, app)
 	}
-	d.r.Eval("whole "+g.key, true)
+	d.r.Eval(mimegen.Hash("whole "+g.key), true)
 	if !ok {
 		d.violate(g, nil, "fetch-whole/failed", fmt.Sprintf("FETCH 1 (RFC822.SIZE BODY.PEEK[] RFC822 RFC822.HEADER RFC822.TEXT) answered %s %s", fres.Status, fres.Text), app)
 		return true
@@ -383,7 +359,7 @@ func (d *drv) runGroup(g *group, tag string) bool {
 			req = append(req, e.item)
 			d.perKind[kind]++
 			d.perPc[c.Pc]++
-			d.r.Eval(g.key+" "+e.item, true)
+			d.r.Eval(mimegen.Hash(g.key+" "+e.item), true)
 		}
 		cmd := strings.Join(req, " ")
 		l, res, ok := d.fetch1(cmd)
@@ -426,7 +402,7 @@ var pcOrder = map[string]int{"none": 0, "zero": 1, "mid": 2, "atlen": 3, "beyond
 func (d *drv) violatePc(g *group, c *tcase, key, detail string, msg []byte) {
 	if c.Pc != "none" {
 		if d.noPartial[key] {
-			d.also[key]++
+			d.alsoPc[key]++
 			return
 		}
 		key += "/partial=" + c.Pc
@@ -470,7 +446,7 @@ func loadGroups(r *ev.Run, tier string) ([]*group, bool) {
 					}
 					return
 				}
-				ck := fmt.Sprintf("%s|%v|%s|%d|%s", k, c.Sect.Path, c.Sect.Kind, c.Sect.Fs, c.Pc)
+				ck := mimegen.Hash(fmt.Sprintf("%s|%v|%s|%d|%s", k, c.Sect.Path, c.Sect.Kind, c.Sect.Fs, c.Pc))
 				if !seenCase[ck] {
 					seenCase[ck] = true
 					c.Tree = nil // the group's layout case holds tree and shape
@@ -512,9 +488,9 @@ func loadGroups(r *ev.Run, tier string) ([]*group, bool) {
 		out = append(out, g)
 	}
 	sort.SliceStable(out, func(i, j int) bool {
-		di, dj := nonDefault(out[i].layout.Shape) == "", nonDefault(out[j].layout.Shape) == ""
+		di, dj := len(out[i].layout.Shape.Dims()), len(out[j].layout.Shape.Dims())
 		if di != dj {
-			return di
+			return di < dj
 		}
 		return out[i].key < out[j].key
 	})
@@ -526,7 +502,7 @@ func loadGroups(r *ev.Run, tier string) ([]*group, bool) {
 }
 
 func run(r *ev.Run, tier, replay string) {
-	d := &drv{r: r, rnd: rand.New(rand.NewSource(ev.Seed())), base: map[string]bool{}, also: map[string]int{},
+	d := &drv{r: r, rnd: rand.New(rand.NewSource(ev.Seed())), dd: mimegen.NewDedup(), alsoPc: map[string]int{},
 		noPartial: map[string]bool{}, refused: map[string]int{}, perKind: map[string]int64{}, perPc: map[string]int64{}}
 	var groups []*group
 	if replay != "" {
@@ -596,7 +572,8 @@ func run(r *ev.Run, tier, replay string) {
 	r.Set("fetches_per_partial_class", d.perPc)
 	r.Set("message_dimensions", dims)
 	r.Set("octets_compared", d.bytesRx)
-	r.Set("failure_signatures_repeated_under_other_shapes", d.also)
+	r.Set("failure_signatures_repeated_under_other_shapes", d.dd.Also)
+	r.Set("failure_signatures_repeated_under_partials", d.alsoPc)
 	r.Set("server_crashes", d.crashes)
 	r.Set("exhaustive", true)
 	r.Set("rule", "one case = (tree, shape, section, partial class) enumerated exhaustively by TLC from GluonMime (Family fetch) within the cfg bounds, with the section's value as chunk indexes of the layout; every (tree, shape) is rendered and APPENDed once, every case is one FETCH 1 (BODY.PEEK[section]<o.n>) compared octet by octet; per message also RFC822.SIZE, RFC822, RFC822.HEADER+RFC822.TEXT, BODY[HEADER]+BODY[TEXT] against BODY[]; offsets of a partial class are seeded; non-trivial = every executed FETCH; distinct = distinct (message, FETCH item)")
